@@ -201,7 +201,11 @@ class Network(object):
     import scales.scales_socket as ss
     net = self
 
-    class _SockShim(object):
+    class _ShimMeta(type):
+      def __getattr__(cls, name):        # any other constant / helper of the socket module
+        return getattr(_real_socket, name)
+
+    class _SockShim(object, metaclass=_ShimMeta):
       """Stands in for the ``socket`` module inside scales.scales_socket."""
       AF_UNSPEC = _real_socket.AF_UNSPEC
       SOCK_STREAM = SOCK_STREAM
@@ -292,6 +296,8 @@ class SimSocket(object):
   def connect(self, addr):
     env = self.net.env
     host, port = addr[0], addr[1]
+    if isinstance(host, bytes):        # the resolver accepts bytes host names (Kafka metadata carries them)
+      host = host.decode('ascii', 'replace')
     srv = self.net.servers.get((host, port))
     env.emit('net.connect.begin', ep='%s:%s' % (host, port))
     if srv is None:
@@ -464,4 +470,8 @@ class SimSocket(object):
       e.set()
 
   def shutdown(self, how):
-    pass
+    # as the kernel does: a connection that the peer has reset (or that a failed write has
+    # already torn down) is no longer connected; after a FIN, or on a healthy one, it succeeds
+    self._check_open()
+    if self.conn.server_closed == 'rst':
+      raise _oserr(errno.ENOTCONN)
